@@ -118,15 +118,18 @@ def countStep (keep : List Nat) (c : Cur) (i : Nat) : Except Fault Cur :=
 def countThread (keep : List Nat) (lo hi : Nat) : Except Fault Cur :=
   foldE (countStep keep) Cur.zero (pyRange lo hi)
 
+/-- the body of `for tid in numba.prange(Nthread)` in the count pass -/
+def countBody (keep : List Nat) (b : List Nat) (tid : Nat) : Except Fault Cur :=
+  match readAt b (tid : Int) with
+  | .error e => .error e
+  | .ok lo =>
+    match readAt b ((tid : Int) + 1) with
+    | .error e => .error e
+    | .ok hi => countThread keep lo hi
+
 /-- `Nout[tid]` for every thread -/
 def countPass (keep : List Nat) (b : List Nat) (T : Nat) : Except Fault (List Cur) :=
-  mapE (fun (tid : Nat) =>
-    match readAt b (tid : Int) with
-    | .error e => .error e
-    | .ok lo =>
-      match readAt b ((tid : Int) + 1) with
-      | .error e => .error e
-      | .ok hi => countThread keep lo hi) (List.range T)
+  mapE (countBody keep b) (List.range T)
 
 /-- `gstart[0] = 0; gstart[1:] = Nout.cumsum(axis 0)`: `acc, acc + x_0, acc + x_0 + x_1, …` -/
 def prefixSums : Cur → List Cur → List Cur
@@ -161,18 +164,22 @@ def fillStep (keep : List Nat) (N : Cur) (st : Cur × List W) (i : Nat) : Except
 def fillThread (keep : List Nat) (N g : Cur) (lo hi : Nat) : Except Fault (Cur × List W) :=
   foldE (fillStep keep N) (g, []) (pyRange lo hi)
 
+/-- the body of `for tid in numba.prange(Nthread)` in the fill pass -/
+def fillBody (keep : List Nat) (b : List Nat) (gstart : List Cur) (N : Cur) (tid : Nat) :
+    Except Fault (Cur × List W) :=
+  match readAt gstart (tid : Int) with
+  | .error e => .error e
+  | .ok g =>
+    match readAt b (tid : Int) with
+    | .error e => .error e
+    | .ok lo =>
+      match readAt b ((tid : Int) + 1) with
+      | .error e => .error e
+      | .ok hi => fillThread keep N g lo hi
+
 def fillPass (keep : List Nat) (b : List Nat) (T : Nat) (gstart : List Cur) (N : Cur) :
     Except Fault (List (Cur × List W)) :=
-  mapE (fun (tid : Nat) =>
-    match readAt gstart (tid : Int) with
-    | .error e => .error e
-    | .ok g =>
-      match readAt b (tid : Int) with
-      | .error e => .error e
-      | .ok lo =>
-        match readAt b ((tid : Int) + 1) with
-        | .error e => .error e
-        | .ok hi => fillThread keep N g lo hi) (List.range T)
+  mapE (fillBody keep b gstart N) (List.range T)
 
 structure Out where
   nout : List Cur
